@@ -8,6 +8,7 @@ EPS = np.finfo(float).eps
 
 
 def measure(kind, a, kw, s, exc):
+    hp = aub = bub = aeq = g = None
     if kind == "tangential":
         g, hp, xl, xu, delta = a[0], a[1], a[2], a[3], float(a[4])
         aub = bub = aeq = None
@@ -27,6 +28,30 @@ def measure(kind, a, kw, s, exc):
     n = xl.size
     if not (np.all(xl <= 0.0) and np.all(xu >= 0.0)) or not (math.isfinite(delta) and delta > 0.0):
         return None            # outside the documented assumptions of the solvers (origin feasible)
+    # C15 / C16 quantify over data whose magnitudes span at most 12 decades: calls made after a barrier
+    # value (2^100) has entered the models carry gradients of 1e18 and more next to radii of 0.1 and
+    # are outside that domain (the clauses are not evaluated on them; see DESIGN 9.4)
+    mags = [delta]
+    for arr in (g if g is not None else None, aub, aeq):
+        if arr is not None and np.size(arr):
+            m = float(np.max(np.abs(arr)))
+            if m > 0.0:
+                mags.append(m)
+    for arr in (xl, xu):
+        f = np.abs(arr[np.isfinite(arr) & (arr != 0.0)])
+        if f.size:
+            mags += [float(np.max(f)), float(np.min(f))]
+    if hp is not None and g is not None:
+        try:
+            e = np.zeros(n)
+            e[0] = delta
+            hm = float(np.max(np.abs(hp(e)))) / delta
+            if hm > 0.0:
+                mags.append(hm)
+        except Exception:
+            pass
+    if not all(math.isfinite(m) for m in mags) or max(mags) / min(mags) > 1e12:
+        return None
     if exc != "none" or s is None:
         s = np.zeros(n)
     s = np.asarray(s, float)
